@@ -1,6 +1,6 @@
 (* Assumption audit of the C02 (Prim / prototype selection) development: every line must
    print "Closed under the global context". *)
-From OPF Require Import Proofs.PrimGraph Proofs.PrimLoop Proofs.PrimMain Proofs.PrimExample Props.C02.
+From OPF Require Import Proofs.PrimGraph Proofs.PrimLoop Proofs.PrimWeight Proofs.PrimMain Proofs.PrimExample Props.C02.
 
 Print Assumptions prim_grown_minimax.
 Print Assumptions minimax_arcs_characterised.
@@ -17,6 +17,10 @@ Print Assumptions C02_prototypes_exact.
 Print Assumptions C02_every_class_has_prototype.
 Print Assumptions C02_prototypes_nonempty.
 Print Assumptions C02_cycle_optimal_unique.
+Print Assumptions C02_minimax_arcs_unique.
+Print Assumptions C02_prim_spanning_parent_map.
+Print Assumptions C02_cycle_optimal_is_minimum.
+Print Assumptions C02_prim_minimum_weight.
 Print Assumptions C02_prim_tree_characterised.
 Print Assumptions C02_prototypes_characterised.
 Print Assumptions C02_find_prototypes_lengths.
